@@ -485,7 +485,7 @@ class Truncate(CorruptFamily):
     name = "truncate"
 
     def generate(self, rng, tier):
-        n_any, n_valid = (4, 2) if tier == "quick" else (40, 16)
+        n_any, n_valid = (4, 2) if tier == "quick" else (30, 10)
         for desc, valid in base_cases(rng, n_any, n_valid, tiny_p=0.7):
             yield {"desc": desc, "env": pick_env(rng, valid), "step": 1, "coq_stride": 7 if tier == "quick" else 1}
 
@@ -592,7 +592,7 @@ class Subst(CorruptFamily):
     name = "subst"
 
     def generate(self, rng, tier):
-        n_any, n_valid = (2, 1) if tier == "quick" else (24, 8)
+        n_any, n_valid = (2, 1) if tier == "quick" else (16, 6)
         for desc, valid in base_cases(rng, n_any, n_valid, tiny_p=0.7):
             yield {"desc": desc, "env": pick_env(rng, valid), "vals": [rng.choice([1, 2, 0x80, 0xFF, 0x40, 0x20]), 0x80 if rng.random() < 0.5 else 0xFF, rng.randrange(1, 256)],
                    "stride": 1, "coq_stride": 16 if tier == "quick" else 6}
@@ -672,7 +672,7 @@ class Multi(CorruptFamily):
     name = "multi"
 
     def generate(self, rng, tier):
-        n_any, n_valid = (6, 2) if tier == "quick" else (120, 40)
+        n_any, n_valid = (6, 2) if tier == "quick" else (60, 20)
         for desc, valid in base_cases(rng, n_any, n_valid, tiny_p=0.6):
             yield {"desc": desc, "env": pick_env(rng, valid), "seed": rng.randrange(2 ** 30),
                    "n_random": 100 if tier == "quick" else 400}
@@ -848,7 +848,7 @@ class Data(CorruptFamily):
     name = "data"
 
     def generate(self, rng, tier):
-        n_any, n_valid = (8, 8) if tier == "quick" else (150, 150)
+        n_any, n_valid = (8, 8) if tier == "quick" else (100, 100)
         for desc, valid in base_cases(rng, n_any, n_valid, tiny_p=0.2):
             yield {"desc": desc, "env": pick_env(rng, valid), "seed": rng.randrange(2 ** 30),
                    "n": 250 if tier == "quick" else 600}
